@@ -361,7 +361,10 @@ impl Run {
                         let lang: &'static str = LANGS.iter().copied().find(|l| *l == um.get_model().get_language()).unwrap_or("en");
                         let loc = um.get_model().get_locale();
                         let root: Option<String> = trees_before.iter().map(|e| classify(e, lang, &loc))
-                            .find(|c| ["function_name_not_unique", "error_nimpl_spelling", "error_not_localized", "array_row_separator", "identifier_is_name_in_target_language"].contains(&c.as_str()));
+                            .find(|c| ["function_name_not_unique", "error_nimpl_spelling", "error_not_localized", "array_row_separator", "identifier_is_name_in_target_language"].contains(&c.as_str()) || c.starts_with("lexer_glue:") || c == "unparsable_input")
+                            // a formula that never parsed is kept as typed; row insertion re-reads that text with the active
+                            // locale, whose parser stops silently at the first character it cannot lex ("8.34.." is 8 in a comma locale)
+                            .map(|c| if c == "unparsable_input" { "unparsable_formula_reparsed_in_active_locale".to_string() } else { c });
                         let class = if matches!(op, HOp::Rename(..)) && non_en { "rename_sheet_reparses_in_active_language".to_string() }
                             else if let (true, Some(c)) = (matches!(op, HOp::InsertRow(..)) && non_en, root) { c }
                             else { "structural_op_depends_on_language".to_string() };
@@ -390,6 +393,22 @@ fn probe_rename(args: &[String]) {
     }
 }
 
+fn probe_insert(args: &[String]) {
+    // insert <lang> <locale> <formula typed in English>...: type at C8, switch, insert a row at 2
+    let lang: &'static str = LANGS.iter().copied().find(|l| *l == args[0]).unwrap();
+    for f in &args[2..] {
+        let mut m = new_model("en", "en");
+        let _ = m.set_user_input(0, 8, 3, f.clone());
+        m.evaluate();
+        println!("{f:?}: stored {:?} value {}", stored(&m, 0, 8, 3), value(&m, 0, 8, 3));
+        let _ = m.set_language(lang);
+        let _ = m.set_locale(&args[1]);
+        let r = m.insert_rows(0, 2, 1);
+        m.evaluate();
+        println!("   insert_rows(0,2,1) under {}/{} = {r:?}: stored {:?} value {} shown {:?}", args[0], args[1], stored(&m, 0, 9, 3), value(&m, 0, 9, 3), m.get_localized_cell_content(0, 9, 3));
+    }
+}
+
 fn probe(args: &[String]) {
     // probe <lang> <locale> <formula typed in English>...
     let lang: &'static str = LANGS.iter().copied().find(|l| *l == args[0]).unwrap();
@@ -413,6 +432,7 @@ fn main() {
     let raw: Vec<String> = std::env::args().collect();
     if raw.len() >= 2 && raw[1] == "probe" { probe(&raw[2..]); return; }
     if raw.len() >= 2 && raw[1] == "rename" { probe_rename(&raw[2..]); return; }
+    if raw.len() >= 2 && raw[1] == "insert" { probe_insert(&raw[2..]); return; }
     let a = Args::parse();
     let mut run = Run { cs: Cases::new(&a.out, "c10"), or: Oracle::default(), fns: Fns::new(), seen: HashSet::new(), dist: BTreeMap::new(), samples: vec![],
         distinct: HashSet::new(), locale_dependent_seen: BTreeSet::new() };
